@@ -136,12 +136,14 @@ PROPS["C05"] = dict(
 )
 
 PROPS["C06"] = dict(
-    modules=["Sth.Props.C01", "Sth.Props.C08", "Sth.Props.C05", "Sth.Props.C06W", "Sth.Props.C04"],
+    modules=["Sth.Props.C01", "Sth.Props.C08", "Sth.Props.C05", "Sth.Props.C06W", "Sth.Props.C06H", "Sth.Props.C06I", "Sth.Props.C04"],
     theorems=list(CORE_RL) + ["Sth.C05_linearizable", "Sth.C05_keys_do_not_interfere", "Sth.C05_freelist_exactly_once",
                               "Sth.C04_store_refines_map", "Sth.C06_relocate_split", "Sth.C06_relocation_window_invisible", "Sth.C06_window_reads_after_finish",
                               "Sth.C06_window_exactly_once_moved", "Sth.C06_window_put_survives", "Sth.C06_window_remove_stays_removed",
                               "Sth.C06_window_untouched_key_moved", "Sth.C06_window_unconditional_repoint_resurrects",
-                              "Sth.C06_window_weak_compare_resurrects", "Sth.C06_refused_path_records_old_twice", "Sth.C06_window_example_hypotheses"],
+                              "Sth.C06_window_weak_compare_resurrects", "Sth.C06_refused_path_records_old_twice", "Sth.C06_window_example_hypotheses",
+                              "Sth.C06_handover_split", "Sth.C06_handover_window_invisible", "Sth.C06_handover_flush_succeeds", "Sth.C06_handover_window_example",
+                              "Sth.C06_igc_free_verdict_stable", "Sth.C06_igc_late_mark_safe", "Sth.C06_igc_busy_verdict_not_stable"],
     runs=[dict(engine="sched", quick=500, thorough=20000, extra=["-profile", "c06"], nontrivial=["gc-overlaps-call", "collector-window"])],
     shrink_budget=0,
     rule="as C05 with an extra thread running primary GC (low-use 0/50/85) and index GC cycles over a store prepared with superseded "
